@@ -251,20 +251,26 @@ theorem version_unique_partial (plus : Bool) (bs : List Batch) :
 
 /-! ## 3. Success is reported only if NGINX runs that version -/
 
-/-- End to end: if a batch that had to reload (OSS: any change; Plus: cluster state change) ends
+/-- End to end: if a batch that had to reload (OSS: any change; Plus: cluster state change, or an
+endpoints-only change while a failed apply is remembered — /repo c94173a) ends
 without error — so that statuses carry no reload failure and the pod may become ready — then the
 master received the HUP, showed changed children and answered exactly the version of the
 configuration written in this batch. -/
 theorem programmed_implies_running (plus : Bool) (s : H) (b : Batch)
-    (hct : b.ct ≠ .noChange) (hre : plus = false ∨ b.ct = .clusterState)
+    (hct : b.ct ≠ .noChange) (hre : plus = false ∨ b.ct = .clusterState ∨ s.lastErr = true)
     (hok : (hstep plus s b).2.err = false) :
     (hstep plus s b).2.cfgVersion = some (s.version + 1) ∧
     (hstep plus s b).2.reloadVersion = some (s.version + 1) ∧
     b.writeOk = true ∧ Running b.oracle (s.version + 1 : Nat) := by
   rw [hstep_change plus s b hct] at hok ⊢
-  obtain ⟨h1, h2⟩ := apply_ok_reload plus b _ hok hre hct
-  obtain ⟨_, _, h3, _⟩ := apply_reloadVersion plus b _ _ h1
-  exact ⟨apply_cfgVersion plus b _ hct, h1, h3, (reload_ok_iff _ _).1 h2⟩
+  have ha : apiOnly plus s.lastErr b = false := by
+    rcases hre with rfl | hc | hl
+    · simp [apiOnly]
+    · simp [apiOnly, hc]
+    · simp [apiOnly, hl]
+  obtain ⟨h1, h2⟩ := apply_ok_reload plus s.lastErr b _ hok ha hct
+  obtain ⟨_, _, h3, _⟩ := apply_reloadVersion plus s.lastErr b _ _ h1
+  exact ⟨apply_cfgVersion plus s.lastErr b _ hct, h1, h3, (reload_ok_iff _ _).1 h2⟩
 
 /-- hypotheses of `programmed_implies_running` are satisfiable: third batch of a sequence, OSS -/
 example :
@@ -274,21 +280,39 @@ example :
       (hstep false s ⟨.endpointsOnly, 3, 1, .ok, good 3, true⟩).2.err = false ∧
       (hstep false s ⟨.endpointsOnly, 3, 1, .ok, good 3, true⟩).1.lastErr = false := by decide
 
-/-- Plus, endpoints only: no reload at all, the API result decides -/
+/-- Plus, endpoints only, nothing failed before: no reload at all, the API result decides; with a
+failed apply remembered the same batch goes through files + reload -/
 example :
     let o : Oracle := ⟨[], 0, .readErr, .err, false, [], [], 0⟩
     (hstep true H.init ⟨.endpointsOnly, 3, 1, .ok, o, true⟩).2.reloadVersion = none ∧
     (hstep true H.init ⟨.endpointsOnly, 3, 1, .ok, o, true⟩).2.err = false ∧
-    (hstep true H.init ⟨.endpointsOnly, 3, 1, .ok, o, false⟩).2.err = true := by decide
+    (hstep true H.init ⟨.endpointsOnly, 3, 1, .ok, o, false⟩).2.err = true ∧
+    (hstep true { H.init with lastErr := true } ⟨.endpointsOnly, 3, 1, .ok, o, true⟩).2.reloadVersion = some 1 ∧
+    (hstep true { H.init with lastErr := true } ⟨.endpointsOnly, 3, 1, .ok, o, true⟩).2.apiCalled = false := by
+  decide
 
-/-- Any failure to write, signal or verify (or of the Plus API) makes the batch fail — exactly. -/
+/-- Any failure to write, signal or verify (or of the Plus API) makes the batch fail — exactly. (The
+API-only arm: Plus, endpoints-only, AND no failed apply remembered.) -/
 theorem failure_iff (plus : Bool) (s : H) (b : Batch) :
     (hstep plus s b).2.err = true ↔
       (b.ct ≠ .noChange ∧
-        if plus = true ∧ b.ct = .endpointsOnly then b.apiOk = false
+        if plus = true ∧ s.lastErr = false ∧ b.ct = .endpointsOnly then b.apiOk = false
         else (b.writeOk = false ∨ (reload b.oracle (s.version + 1)).res.isSome = true ∨
-              (plus = true ∧ b.apiOk = false))) :=
-  hstep_err_iff plus s b
+              (plus = true ∧ b.apiOk = false))) := by
+  have h := hstep_err_iff plus s b
+  have hiff := apiOnly_iff plus s.lastErr b
+  cases ha : apiOnly plus s.lastErr b with
+  | true =>
+    have ha' := hiff.1 ha
+    rw [ha] at h
+    rw [if_pos ha']
+    simpa using h
+  | false =>
+    have ha' : ¬(plus = true ∧ s.lastErr = false ∧ b.ct = .endpointsOnly) := by
+      intro hc; rw [hiff.2 hc] at ha; cases ha
+    rw [ha] at h
+    rw [if_neg ha']
+    simpa using h
 
 /-! ## 4. Failures surface in statuses -/
 
@@ -539,7 +563,7 @@ theorem handler_source_as_modelled :
        "if getErr != nil { logger.Error(getErr, \"error getting deployment context for usage reporting\") }",
        "cfg.DeploymentContext = depCtx",
        "h.setLatestConfiguration(&cfg)",
-       "if h.cfg.plus { err = h.updateUpstreamServers(cfg) } else { err = h.updateNginxConf(ctx, cfg) }"] ∧
+       "if h.cfg.plus && h.latestReloadResult.Error == nil { err = h.updateUpstreamServers(cfg) } else { err = h.updateNginxConf(ctx, cfg) }"] ∧
     Generated.Reload.case_state_ClusterStateChange =
       ["h.version++",
        "cfg := dataplane.BuildConfiguration(ctx, gr, h.cfg.serviceResolver, h.version)",
